@@ -21,6 +21,19 @@ def known_signature(ev, text):
     constant passes the checker and panics the compiler."""
     if ev["outcome"] not in ("panic", "hang", "crash"):
         return None
+    if ev["outcome"] == "crash":
+        # stack overflow of the recursive front end / compiler: nesting depth or operator chains in the thousands
+        depth, cur = 0, 0
+        for ch in text:
+            if ch in "([{":
+                cur += 1
+                depth = max(depth, cur)
+            elif ch in ")]}":
+                cur = max(0, cur - 1)
+        chain = max((len(m.group(0)) for m in re.finditer(r"(?:[!\-]\s*){400,}", text)), default=0)
+        ops = len(re.findall(r"[-+*/%^&|]", text))
+        if depth >= 400 or chain > 0 or ops >= 3000:
+            return "stack-depth"
     if ev["outcome"] == "panic" and ev.get("unspec_binding"):
         # the accepted program binds a name to a value of unresolved integer type (see the C05 entry unspecified-binding)
         return "unspecified-binding"
